@@ -89,7 +89,7 @@ def run(ctx):
     for name in names:
         fam = zoo.BY_NAME[name]
         for k in range(per):
-            crng = np.random.default_rng([ctx.seed, 17, hash(name) % 2**31, k])
+            crng = np.random.default_rng([ctx.seed, 17, core.shash(name), k])
             cfg = fam.config(crng)
             n = int(crng.choice([200, 500])) if fam.kind == "stream" else int(crng.choice([8, 14, 20]))
             if name == "LinearFourRates":
